@@ -222,6 +222,138 @@ def run_history(h):
     return {"hid": h["hid"], "ev": events}
 
 
+# ---------------------------------------------------------------------------------------------------
+# threads of one process sharing one JournalStorage, under the line-level scheduler: snapshots taken while
+# another thread is inside a call must still be "a log prefix, folded"
+# ---------------------------------------------------------------------------------------------------
+TH_FILES = ("/storages/journal/_storage.py",)
+TH_SETUP = [
+    {"a": "create_study", "name": "A", "dirs": [0]},
+    {"a": "create_trial", "s": 1, "tm": {"has": 0}},
+    {"a": "create_trial", "s": 1, "tm": {"has": 0}},
+]
+
+
+def _th_programs(rng):
+    """thread 1 creates trials (every second id saves a snapshot); thread 2 writes to the trials of the set-up"""
+    dist = sd.dists()[0][0]
+    pool = [
+        {"a": "set_trial_ua", "t": 1, "key": sd.KEYS[0], "v": 1},
+        {"a": "set_trial_sa", "t": 2, "key": sd.KEYS[1], "v": 2},
+        {"a": "set_iv", "t": 1, "step": str(sd.STEPS[0]), "v": sd.FINITE[0]},
+        {"a": "set_iv", "t": 2, "step": str(sd.STEPS[1]), "v": sd.FINITE[1]},
+        {"a": "set_param", "t": 1, "name": sd.NAMES[0], "v": sd.param_vals_for(dist)[0], "d": dist},
+        {"a": "set_state", "t": 2, "state": "COMPLETE", "values": [sd.FINITE[2]]},
+        {"a": "set_study_ua", "s": 1, "key": sd.KEYS[0], "v": 3},
+    ]
+    a = [{"a": "create_trial", "s": 1, "tm": {"has": 0}} for _ in range(rng.choice([1, 2, 3]))]
+    b = rng.sample(pool, rng.choice([1, 2, 2, 3]))
+    return [a, b]
+
+
+def run_threaded(case):
+    """case: {"hid", "progs": [A, B], "p": int, "q": int}: thread 1 runs p yield points, thread 2 the next q, then thread 1
+    to its end, then thread 2.  Returns the trace events (appends in log order, then every snapshot ever saved restored)."""
+    common.use_repo()
+    from optuna.storages import JournalStorage
+    from optuna.storages.journal import _storage as JS
+    from . import thread_sched as ts
+    import threading
+
+    ListBackend, NoSnap = _backends()
+    JS.SNAPSHOT_INTERVAL = 2
+    JS.os = __import__("os")
+    sched = ts.Scheduler(TH_FILES)
+    cur_op = {}
+    events = []
+    snaps = []
+
+    class Backend(ListBackend):
+        def append_logs(self, logs):
+            me = sched.current_worker()
+            w = me.wid if me is not None else 0
+            for _ in logs:
+                events.append({"e": "append", "o": 1, "w": w, "op": cur_op[w]})
+            super().append_logs(logs)
+
+        def save_snapshot(self, snapshot):
+            snaps.append(snapshot)
+            super().save_snapshot(snapshot)
+
+    backend = Backend()
+    st = JournalStorage(backend)
+    ts.patch_locks(sched, st)
+    shared = Shared()
+    rp0 = _replayer(st, shared)
+    for op in TH_SETUP:
+        cur_op[0] = op
+        rp0.call(op)
+
+    def mk(w, prog):
+        rp = _replayer(st, shared)
+
+        def body(worker):
+            for op in prog:
+                cur_op[w] = op
+                rp.call(op)
+        return body
+    for w, prog in enumerate(case["progs"], 1):
+        sched.add(mk(w, prog))
+    p, q = case["p"], case["q"]
+    cnt = {1: 0, 2: 0}
+
+    def choose(r, step):
+        by = {w.wid: w for w in r}
+        if cnt[1] < p:
+            pick = by.get(1) or r[0]
+        elif cnt[2] < q:
+            pick = by.get(2) or r[0]
+        else:
+            pick = by.get(1) or r[0]
+        cnt[pick.wid] += 1
+        return pick
+    res = sched.run(choose)
+    if res["deadlock"]:
+        raise tlc.MachineryError(f"threaded journal case {case['hid']} deadlocked")
+    for w in sched.workers:
+        if w.error is not None:
+            raise tlc.MachineryError(f"threaded journal case {case['hid']}: worker {w.wid} raised {w.error!r}")
+    o = 100
+    for sn in snaps:
+        res_ = pickle.loads(sn)
+        o += 1
+        events.append({"e": "apply", "o": o, "w": 1, "n": res_.log_number_read, "k": res_.log_number_read,
+                       "view": _view_of_result(rp0, res_), "err": "none"})
+    v = rp0.post()
+    events.append({"e": "sync", "o": 1, "w": 1, "k": st._replay_result.log_number_read, "view": v, "err": "none"})
+    for how in ("snapshot", "fresh"):
+        st2 = JournalStorage(backend if how == "snapshot" else NoSnap(backend))
+        o += 1
+        events.append({"e": "open", "o": o, "w": o, "how": how, "k": st2._replay_result.log_number_read,
+                       "view": _replayer(st2, shared).post(), "err": "none", "snap": 1})
+    return {"hid": case["hid"], "ev": events, "lines": [w.lines for w in sched.workers], "snaps": len(snaps)}
+
+
+def _th_chunk(cases):
+    return [run_threaded(c) for c in cases]
+
+
+def threaded_cases(ctx):
+    rng = random.Random(ctx.rng.getrandbits(48))
+    cases = []
+    n_prog = 3 if ctx.quick else 12
+    for i in range(n_prog):
+        progs = _th_programs(rng)
+        dry = run_threaded({"hid": "dry", "progs": progs, "p": 10 ** 9, "q": 10 ** 9})
+        na, nb = dry["lines"][0] + 2, dry["lines"][1] + 2
+        pts = [(p, q) for p in range(0, na + 1) for q in range(1, nb + 1)]
+        if ctx.quick:
+            pts = rng.sample(pts, min(len(pts), 260))
+        for p, q in pts:
+            cases.append({"hid": f"th{i}-{p}-{q}", "progs": progs, "p": p, "q": q})
+    return cases
+
+
 def gen_history(rng: random.Random, hid, n_steps=22):
     workers = rng.choice([2, 2, 3])
     g = sg.Gen(random.Random(rng.getrandbits(40)), max_studies=3, max_trials=6)
@@ -291,7 +423,9 @@ def judge(ctx, traces, label):
 def run(ctx):
     ctx.rule = ("histories of 2-3 real JournalStorage workers on one journal (JSON-serialising list backend with snapshots, "
                 "SNAPSHOT_INTERVAL=2), raw replay objects driven with arbitrary batch splits under a worker's identity, "
-                "snapshot restores and fresh re-opens; after every step the object's projection is validated by TLC "
+                "snapshot restores and fresh re-opens; plus two threads sharing one JournalStorage under the line-level "
+                "scheduler (thread 1 creates trials and saves snapshots, thread 2 writes; every (p, q) double preemption, "
+                "sampled in quick), every snapshot ever saved restored; after every step the object's projection is validated by TLC "
                 "against Fold(log prefix); distinct = distinct event-shape sequences")
     r = tlc.require_model("JournalReplayMC", "JournalReplayMC_q" if ctx.quick else "JournalReplayMC_t", must_cover=MC_COVER,
                           timeout=3000)
@@ -307,6 +441,19 @@ def run(ctx):
             for t, h in zip(res, chunk):
                 t["history"] = h
                 traces.append(t)
+    tcases = threaded_cases(ctx)
+    tchunks = [tcases[i::16] for i in range(16)]
+    n_snap = 0
+    with cf.ProcessPoolExecutor(max_workers=16) as ex:
+        for res, chunk in zip(ex.map(_th_chunk, tchunks), tchunks):
+            for t, c in zip(res, chunk):
+                t["history"] = {"threaded": c}
+                n_snap += t["snaps"]
+                traces.append(t)
+    ctx.notes["threaded_cases"] = len(tcases)
+    ctx.notes["threaded_snapshots_restored"] = n_snap
+    if n_snap == 0:
+        raise tlc.MachineryError("vacuous run: no snapshot was saved in the threaded family")
     v = judge(ctx, traces, "multi-worker journal replay")
     raised = sum(1 for t in traces for e in t["ev"] if e["e"] == "apply" and e["err"] != "none")
     opens = sum(1 for t in traces for e in t["ev"] if e["e"] == "open" and e.get("snap"))
@@ -335,6 +482,11 @@ def run(ctx):
 
 
 def replay(ctx, data):
+    if "threaded" in data["history"]:
+        t = run_threaded(data["history"]["threaded"])
+        t["history"] = data["history"]
+        judge(ctx, [t], "replay")
+        return
     t = run_history(data["history"])
     t["history"] = data["history"]
     judge(ctx, [t], "replay")
